@@ -169,6 +169,19 @@ def explicit_cases(tier):
                 if wrap:
                     rows = [{"type": f"begin {wrap}", "name": "w", "label": "W"}, *rows, {"type": f"end {wrap}"}]
                 yield {"k": "rows", "rows": rows, "what": "or-other-shared-list"}
+    # the meta block: audit, instanceID, instanceName, entity - in that order, each present iff its feature is
+    for audit in (False, True):
+        for iname in (False, True):
+            for omit in (False, True):
+                for ent in (False, True):
+                    for grp in (False, True):
+                        rows = [{"type": "text", "name": "q", "label": "Q", **({"save_to": "p"} if ent else {})}]
+                        if audit:
+                            rows.insert(1 if grp else 0, {"type": "audit"})
+                        if grp:
+                            rows = [rows[0], {"type": "begin group", "name": "g", "label": "G"}, {"type": "text", "name": "i", "label": "I"}, *rows[1:], {"type": "end group"}]
+                        yield {"k": "rows", "rows": rows, "what": "meta",
+                               "meta": {"instance_name": iname, "omit": omit, "entity": ent}}
     vals = [None, "yes", "no", "true()", "TRUE"]
     for k in (2, 3) if tier == "quick" else (2, 3, 4):
         for combo in itertools.product(vals, repeat=k):
@@ -297,7 +310,7 @@ def mk_cont(kind, extra, nm):
 # ---------------------------------------------------------------- reference model ----
 def spec_of(row):
     """(control | None, instance kind) for a question row, from the frozen alphabet"""
-    skip = ("name", "label", "disabled", "NONAME")
+    skip = ("name", "label", "disabled", "NONAME", "save_to")
     key = {k: v for k, v in row.items() if k not in skip}
     for tmpl, ctl, inst in QROWS:
         if {k: v for k, v in tmpl.items() if k not in skip} == key and bool(tmpl.get("NONAME")) == ("name" not in row):
@@ -481,12 +494,30 @@ def diff_trees(exp, got, path=""):
 def check_one(case):
     rows, _ = build_rows(case)
     wb = {"survey": rows, "choices": [dict(c) for c in CHOICES], "osm": [dict(c) for c in OSM], "external_choices": [dict(c) for c in EXT]}
+    mf = case.get("meta") or {}
+    st = {}
+    if mf.get("instance_name"):
+        st["instance_name"] = "concat('a', 'b')"
+    if mf.get("omit"):
+        st["omit_instanceID"] = "yes"
+    if st:
+        wb["settings"] = [st]
+    if mf.get("entity"):
+        wb["entities"] = [{"list_name": "trees", "label": "concat('e', '1')"}]
     out = run_convert(wb)
     ntr = len(rows)
     if out.kind == "crash":
         return {"outcome": "crash", "nt": False, "viol": [], "tr": ntr}
     try:
         einst, ebody = ref_model(rows)
+        if mf:
+            aud = [c for c in einst[-1][1] if c[0] == "audit"]
+            kids = aud + ([] if mf.get("omit") else [("instanceID", [], "")]) + ([("instanceName", [], "")] if mf.get("instance_name") else []) \
+                + ([("entity", [("label", [], "")], "")] if mf.get("entity") else [])
+            if kids:
+                einst[-1] = ("meta", kids, "")
+            else:
+                einst.pop()  # nothing to hold: no meta block at all
     except ExpectedReject as e:
         if out.kind == "reject":
             return {"outcome": "reject-expected", "nt": False, "viol": [], "tr": ntr}
